@@ -456,6 +456,8 @@ class Opts:
         self.prefix_not = True
         self.rhs_query = True     # query / variable right-hand sides
         self.msgs = False
+        self.call_neg = True      # `not p(args)`
+        self.nested_calls = True  # a parameterised rule calling another one
         self.default = True       # file-level (default rule) clauses
         self.max_rules = 4
         self.max_lines = 4
@@ -654,7 +656,7 @@ def gen_alt(rng, ctxv, o, depth, env):
     """env: dict(rules=[names referable], vars=[(name,value)], prules=[(name, nparams)], in_rule_level=bool)"""
     r = rng.random()
     if o.refs and env.get("refs") and env.get("allow_ref", True) and r < 0.14:
-        return {"t": "ref", "neg": rng.random() < 0.3, "name": rng.choice(env["refs"]), "msg": None}
+        return {"t": "ref", "neg": rng.random() < 0.3, "name": rng.choice(env["refs"]), "msg": ("m%d" % rng.randint(0, 9)) if o.msgs and rng.random() < 0.3 else None}
     if o.calls and env.get("prules") and r < 0.2:
         name, nparams = rng.choice(env["prules"])
         args = []
@@ -664,7 +666,8 @@ def gen_alt(rng, ctxv, o, depth, env):
                 args.append(["query", head_fix(q2, depth == 0)])
             else:
                 args.append(["lit", _pick_scalar_like(rng, None, o)])
-        return {"t": "call", "neg": False, "name": name, "args": args}
+        return {"t": "call", "neg": o.call_neg and rng.random() < 0.25, "name": name, "args": args,
+                "msg": ("m%d" % rng.randint(0, 9)) if o.msgs and rng.random() < 0.4 else None}
     if o.blocks and depth < o.max_depth and r < 0.3:
         q, v = gen_walk(rng, ctxv, o, 3, allow_filter=True, depth=depth)
         q = head_fix(q, depth == 0)
@@ -767,6 +770,16 @@ def gen_file(rng, doc, o=None):
                 body.append([clause([["var", p]], op, None)])
         rules.append(rule("pr0", body, params=params))
         prules.append(("pr0", np_))
+        if o.nested_calls and rng.random() < 0.5:
+            # a second parameterised rule whose body calls the first one (nested call, with or without message / negation)
+            inner_args = [(["query", [["var", "q0"]]] if rng.random() < 0.7 else ["lit", _pick_scalar_like(rng, None, o)]) for _ in range(np_)]
+            call = {"t": "call", "neg": o.call_neg and rng.random() < 0.25, "name": "pr0", "args": inner_args,
+                    "msg": ("m%d" % rng.randint(0, 9)) if o.msgs and rng.random() < 0.4 else None}
+            body1 = [[call]]
+            if rng.random() < 0.6:
+                body1.insert(rng.randint(0, 1), [clause([["var", "q0"]], rng.choice(["exists", "is_string", "is_list"]), None)])
+            rules.append(rule("pr1", body1, params=["q0"]))
+            prules.append(("pr1", 1))
     for i in range(nrules):
         refs = [names[j] for j in range(nrules) if rank[j] > rank[i]]
         env = {"refs": refs, "vars": list(fvars), "prules": prules, "allow_ref": True}
